@@ -1842,6 +1842,9 @@ func TestVerifC15(t *testing.T) {
 	c15OverlapDisable(t, out, srv, false, true, true, 15)
 	c15OverlapDisable(t, out, srv, true, false, false, 20)
 	c15OverlapDisable(t, out, srv, false, true, false, 31)
+	// Requests for an engine rebuild queueing up behind a busy updates loop
+	// (zz_verif_C15queue_test.go).
+	c15QueueAll(t, out, srv)
 	c15BigBodies(t, out, srv)
 
 	r := vfNewRand(out.Seed)
